@@ -4,6 +4,10 @@ PROPS = {}
 
 PROPS["C16"] = {
     "pkg": "c16", "level": "exploration",
+    "technique": "property-based differential testing (rapid) against independent math/big ECDSA / BIP-340 / ecrecover references, plus published BIP-340 vectors",
+    "level_text": "Generated keys, messages and single-field perturbations of valid signatures; every verdict of the library routine is compared with a "
+                  "reference implementation written from the standards. Random search with boundary-biased generators: finds disagreement classes, does not prove absence.",
+    "level_note": "Trusts the harness reference (self-checked against BIP-340 vectors 0 and 1 and 2G); x >= n nonce points (probability 2^-128) are not generated.",
     "rule": "cases are (routine, key class, message-length class, perturbation) drawn by rapid; a case is non-trivial when the "
             "input is perturbed or on a boundary (key in {1,2,3,n-1,n-2}, message length != 32, high-s form); distinct = distinct class keys",
     "assumptions": ["reference secp256k1/ECDSA/BIP-340 written against math/big from the specifications; self-checked against BIP-340 vectors 0 and 1"],
